@@ -414,7 +414,59 @@ def rule_values(run):
     fixedvalues.run_rule(run, "C19.values")
 
 
-RULES = [rule_format, rule_ctor, rule_ctor_abs, rule_round, rule_sat, rule_siblings, rule_template_arg, rule_replacements, rule_castmatrix, rule_choose_first, rule_views, rule_template_cache, rule_values]
+def rule_const_resize(run):
+    run.begin(
+        "C19.cresize",
+        "constant resize of Signed / Unsigned (used by constant fixed-point arithmetic): value * 2**zeros in target_width "
+        "bits, default target width = width + zeros (abstract evaluation for all values of widths 1..3)",
+        floor=40,
+    )
+    from ..absint import Interp, Reject
+    for rel, own, signed in (("cohdl/_core/_unsigned.py", "Unsigned", False), ("cohdl/_core/_signed.py", "Signed", True)):
+        mod = run.idx.mod(rel)
+        f = mod.func(f"{own}.resize")
+
+        class _T:
+            def __getitem__(self, w):
+                return lambda v=None: ("made", w, v)
+
+        for w in (1, 2, 3):
+            rng = range(-(1 << (w - 1)), 1 << (w - 1)) if signed else range(0, 1 << w)
+            for zeros in (0, 1, 2):
+                for extra in (None, 0, 1):
+                    bad = []
+                    for v in rng:
+                        class _Self:
+                            pass
+                        so = _Self()
+                        so.width = w
+                        so.to_int = (lambda v=v: v)
+                        tw = None if extra is None else w + zeros + extra
+                        try:
+                            got = Interp(mod, {own: _T(), "__setattr__": lambda o, k, x: setattr(o, k, x)}).call_function(f"{own}.resize", so, tw, zeros=zeros)
+                        except Reject as e:
+                            got = f"rejected: {e}"
+                        exp = ("made", w + zeros + (extra or 0), v * 2 ** zeros)
+                        if got != exp:
+                            bad.append((v, got))
+                    run.ob(not bad, f"{own}.resize", file=rel, line=f.node.lineno, detail=f"w={w},zeros={zeros},target={'default' if extra is None else w + zeros + extra}",
+                           expected=f"{own}[target](value * 2**{zeros})", found="ok" if not bad else str(bad[:2])[:100], sample=False)
+    run.end()
+
+
+def rule_compare_formats(run):
+    run.begin("C19.cmp", "fixed-point values are compared bit by bit only when both have the SAME format (same class); other formats are rejected, never compared by raw bits", floor=2)
+    mod = run.idx.mod(FX)
+    for kind in ("SFixed", "UFixed"):
+        f = mod.func(f"{kind}.__eq__")
+        p = f.node.args.args[1].arg
+        asserts = [src(a.test) for a in walk_local(f.node) if isinstance(a, ast.Assert)]
+        ok = f"type({p}) is type(self)" in asserts or f"type(self) is type({p})" in asserts
+        run.ob(ok, f"{kind}.__eq__", file=mod.rel, line=f.node.lineno, detail="same-format", expected=f"assert type({p}) is type(self) before comparing the raw values", found=str(asserts))
+    run.end()
+
+
+RULES = [rule_format, rule_ctor, rule_ctor_abs, rule_round, rule_sat, rule_siblings, rule_template_arg, rule_replacements, rule_castmatrix, rule_choose_first, rule_views, rule_template_cache, rule_values, rule_const_resize, rule_compare_formats]
 LEVEL = "other"
 EXPLANATION = (
     "Fixed-point exactness is decided for the format algebra: + - * of both classes are interpreted abstractly over a "
